@@ -340,7 +340,7 @@ def whole_sast_transformers(tier_name):
 
     KEY = "C06/finding-on-enclosing-statement-dispatched-to-call-handler"
     recs = []
-    for entry in c06w.FAMILY:
+    for entry in c06w.FAMILY + (c06w.MORE if tier_name == "thorough" else []):
         cid = entry[0]
         rec = {"name": "whole:" + cid, "engine": "E3-cells+z3"}
         try:
